@@ -368,6 +368,11 @@ def run_index(seed, tier, i, tmpdir):
     return res
 
 
+def discard_result(i, reason):
+    return {"index": i, "violations": [], "digest": "discard:died", "counters": {"discard.run-died": 1}, "coverage": [],
+            "steps": 0, "pool": 0, "solver": "died"}
+
+
 def rebuild_run(seed, tier, i, tmpdir):
     return gen_run(seed, tier, i)
 
